@@ -87,8 +87,14 @@ claim("C14", "other",
       "Trusted: clang 14 + tbfscan, sympy polynomial normal form; StarPU part through the declaration stub.",
       "writer/reader address polynomials, stride-source and slot-order agreement over the clang AST", "DESIGN.md §2 C14")
 
+claim("C15", "other",
+      "Only the clauses that the shape of the code settles (the property as a whole is sanitizer territory and is NOT claimed beyond them): (1) acquire/release pairing on all paths - every TbfUtils::CreateNew result is handed to exactly one task that deletes it exactly once, unconditionally, after its last use, the creator never touches it again; every shifted position copy reaches FreePositions as the last statement of its block with no exit in between; inside the shifter every slot is new[]-allocated and delete[]-released; "
+      "(2) ownership typestate of TbfMemoryBlock - frees guarded by the ownership flag, flag set exactly at the allocation, move steals and nulls, raw views never own, copying deleted; (3) capture lifetimes of all OpenMP tasks and written position slots (shared rules with C03.c / C02.3). Out-of-bounds, signed overflow, invalid shifts and assertion failures on arbitrary inputs are not decided.",
+      "Trusted: clang 14 + tbfscan; structured control flow (no goto) in the analysed functions - an unrecognised construct is exit 2.",
+      "acquire/release pairing, ownership typestate and lifetime rules over the clang AST", "DESIGN.md §2 C15")
+
 _todo = "check not built yet in this round (see DESIGN.md §7 build order)"
-for p in ["C08","C10","C15"]:
+for p in ["C08","C10"]:
     NA[p] = _todo
 NA["C01"] = "exactly-once is a counting statement over all particle sets, heights, dimensions and groupings; no lint/effect/type argument bounds the list-builder arithmetic. Structural prerequisites are decided under C02/C03/C08/C11/C12."
 NA["C04"] = "bound on a floating-point truncation error over all positions/heights/orders: nothing about it is visible in the shape of the code (accumulate clause is under C08, code conventions under C11)."
